@@ -1,1 +1,2 @@
--- Certificates on data regenerated from /repo (modules under XonshCerts/ are written by the translators).
+-- Certificates on data regenerated from /repo.
+import XonshCerts.Basic
